@@ -3,6 +3,7 @@ import PercevalModel.Model.C11
 import PercevalModel.Model.C11Lists
 import PercevalModel.Model.C11Heur
 import PercevalModel.Model.C11Regroup
+import PercevalModel.Model.C11Deep
 
 open Lean PM PM.Proto PM.C11
 
@@ -360,6 +361,59 @@ def doStep (j : Json) : Except String Json := do
     return Json.mkObj [("ok", Json.bool false), ("tags", toJson (cands.map (·.1))),
       ("cands", Json.arr (cands.map candJson).toArray)]
 
+/-! nested circuits with object identity: `{"id": k, "leaf": <leaf>}` / `{"id": k, "circ": m, "items": [[off, node], …]}` -/
+
+partial def ocmpOf (j : Json) : Except String (OCmp GQ) := do
+  let id ← natOf j "id"
+  if let .ok l := j.getObjVal? "leaf" then
+    match ← leafOf l with
+    | some x => return .leaf id x
+    | none => throw "bad leaf"
+  let m ← natOf j "circ"
+  if m = 0 then throw "AssertionError"
+  let items ← arrOf j "items"
+  let mut acc : List (ℕ × OCmp GQ) := []
+  for it in items do
+    match it with
+    | .arr #[o, c] =>
+      let off ← o.getNat?
+      let sub ← ocmpOf c
+      if off + sub.erase.size > m ∨ sub.erase.size = 0 then throw "AssertionError"
+      acc := (off, sub) :: acc
+    | _ => throw "bad item"
+  return .circ id m (acc.foldl (fun r p => .cons p.1 p.2 r) .nil)
+
+mutual
+  /-- iteration-order listing `(depth, first port, size, is a container)` -/
+  partial def shapeC (depth off : ℕ) : OCmp GQ → List (ℕ × ℕ × ℕ × Bool)
+    | .leaf _ l => [(depth, off, l.size, false)]
+    | .circ _ m items => (depth, off, m, true) :: shapeI (depth + 1) items
+  partial def shapeI (depth : ℕ) : OIts GQ → List (ℕ × ℕ × ℕ × Bool)
+    | .nil => []
+    | .cons off c rest => shapeC depth off c ++ shapeI depth rest
+end
+
+def shapeJson (l : List (ℕ × ℕ × ℕ × Bool)) : Json :=
+  Json.arr (l.map fun p => Json.arr #[toJson p.1, toJson p.2.1, toJson p.2.2.1, Json.bool p.2.2.2]).toArray
+
+/-- `copy()` of a nested circuit: the new objects, the shape and the matrix of the copy; with
+`"mutate": a` additionally the matrices of original and copy after an in-place `inverse(h=True)` of
+the leaf object `a` -/
+def doDeepCopy (j : Json) : Except String Json := do
+  let t ← ocmpOf (← j.getObjVal? "tree")
+  let next ← natOf j "next"
+  if t.ids.any (· ≥ next) then throw "identity not below next"
+  let cp := (t.copy next).1
+  let base : List (String × Json) :=
+    [("ids", toJson cp.ids), ("origIds", toJson t.ids), ("shape", shapeJson (shapeC 0 0 cp)),
+     ("U", matJson (cp.erase.UV GQ.I))]
+  match natOf j "mutate" with
+  | .ok a =>
+    let f : Leaf GQ → Leaf GQ := Leaf.inv true false true
+    return Json.mkObj (base ++ [("origAfter", matJson ((t.mutate a f).erase.UV GQ.I)),
+      ("copyAfter", matJson ((cp.mutate a f).erase.UV GQ.I))])
+  | .error _ => return Json.mkObj base
+
 def handle (j : Json) : Json :=
   match (do
     let op ← strOf j "op"
@@ -371,6 +425,7 @@ def handle (j : Json) : Json :=
     | "perm" => doPerm j
     | "step" => doStep j
     | "heur" => doHeur j
+    | "deepcopy" => doDeepCopy j
     | _ => throw "unknown op" : Except String Json) with
   | .ok r => r
   | .error e => errJson e
